@@ -295,44 +295,35 @@ func (l *commitLog) EarliestOffsetAfterTimestamp(timestamp int64) (int64, error)
 	l.mu.RLock()
 	defer l.mu.RUnlock()
 
-	// Find the first segment whose base timestamp is greater than the given
-	// timestamp.
-	idx, err := findSegmentIndexByTimestamp(l.segments, timestamp)
-	if err == io.EOF {
-		// EOF indicates there is no such segment, meaning the timestamp is
-		// beyond the end of the log so return the next assignable offset.
-		return l.segments[len(l.segments)-1].NextOffset(), nil
-	}
+	// Find the first segment whose base timestamp is greater than or equal to
+	// the given timestamp. All earlier segments start before the timestamp.
+	idx, err := findSegmentIndexByTimestamp(l.segments, timestamp-1)
 	if err != nil {
 		return 0, errors.Wrap(err, "failed to find log segment for timestamp")
 	}
-	// Search the previous segment for the first entry whose timestamp is
-	// greater than or equal to the given timestamp. If this is the first
-	// segment, just search it.
-	var seg *segment
-	if idx == 0 {
-		seg = l.segments[0]
-	} else {
-		seg = l.segments[idx-1]
-	}
-	entry, err := seg.findEntryByTimestamp(timestamp)
-	if err == nil {
-		return entry.Offset, nil
-	}
-	if err != ErrEntryNotFound && err != io.EOF {
-		return 0, errors.Wrap(err, "failed to find log entry for timestamp")
-	}
-	// This indicates there are no entries in the segment whose timestamp
-	// is greater than or equal to the target timestamp. In this case, search
-	// the next segment if there is one. If there isn't, the timestamp is
-	// beyond the end of the log so return the next assignable offset.
-	if idx < len(l.segments)-1 {
-		seg = l.segments[idx]
-		entry, err := seg.findEntryByTimestamp(timestamp)
-		if err != nil {
+	// Search the previous segment, which starts before the timestamp, for the
+	// first entry whose timestamp is greater than or equal to the given
+	// timestamp.
+	if idx > 0 {
+		entry, err := l.segments[idx-1].findEntryByTimestamp(timestamp)
+		if err == nil {
+			return entry.Offset, nil
+		}
+		if err != ErrEntryNotFound && err != io.EOF {
 			return 0, errors.Wrap(err, "failed to find log entry for timestamp")
 		}
-		return entry.Offset, nil
+	}
+	// There are no such entries in the previous segment, so it is the first
+	// entry of this segment if there is one. If there isn't, the timestamp is
+	// beyond the end of the log so return the next assignable offset.
+	if idx < len(l.segments) {
+		entry, err := l.segments[idx].findEntryByTimestamp(timestamp)
+		if err == nil {
+			return entry.Offset, nil
+		}
+		if err != ErrEntryNotFound && err != io.EOF {
+			return 0, errors.Wrap(err, "failed to find log entry for timestamp")
+		}
 	}
 	return l.segments[len(l.segments)-1].NextOffset(), nil
 }
